@@ -22,6 +22,8 @@ import DriverLib.C18
 import DriverLib.C15
 import DriverLib.C12
 import DriverLib.C07
+import DriverLib.C11
+import DriverLib.C20
 open Lean Drv
 
 def handlers : List (String → Json → Option (R Json)) := [
@@ -42,6 +44,8 @@ def handlers : List (String → Json → Option (R Json)) := [
   Drv.C15.handle,
   Drv.C12.handle,
   Drv.C07.handle,
+  Drv.C11.handle,
+  Drv.C20.handle,
   fun _ _ => none]
 
 def dispatch (line : String) : Json :=
